@@ -742,8 +742,14 @@ func runC11(cs c11Case) *Outcome {
 				// nothing to mirror (refused message, nothing to withdraw): an equal-fee no-op keeps the fee flows identical
 				msgs, filler = []sdk.Msg{bankSend(sender.Acc(), sender.Acc(), sdk.NewCoins(sdk.NewCoin(chain.Denom, sdkmath.NewInt(1))))}, true
 			}
+			// the twin pays exactly what the fee collector received on A: gas used x price for an executed Ethereum tx
+			// (the unused part is returned out of the collected fee), the whole fee otherwise
+			feeB := fee
+			if st.Kind != "native" && tr.Receipt != nil {
+				feeB = new(big.Int).Mul(price, new(big.Int).SetUint64(tr.Receipt.GasUsed))
+			}
 			accNum, seq, _ := b.AccountInfo(ctxB, sender.Acc())
-			txB, err := chain.CosmosTx{Signer: st.Sender, Msgs: msgs, Gas: c11CosmosGas, FeeAmount: fee.String()}.Build(b.TxCfg, b.World.CID(), accNum, seq)
+			txB, err := chain.CosmosTx{Signer: st.Sender, Msgs: msgs, Gas: c11CosmosGas, FeeAmount: feeB.String()}.Build(b.TxCfg, b.World.CID(), accNum, seq)
 			if err != nil {
 				o.dev("", "step %d: cannot build the twin tx: %v", si, err)
 				return o
